@@ -1,6 +1,861 @@
-//! C16 — not built yet.
+//! C16 — only the queried server's matching reply completes a query.
+//!
+//! UDP: the real `UdpClientStream::send_message` over a scripted `DnsUdpSocket`/`RuntimeProvider`
+//! in virtual time (`c16/udp.rs`, `c16/vtime.rs`).
+//! Streams: the real `DnsMultiplexer` over a scripted `DnsClientStream`, polled by hand with a counting
+//! waker (`c16/mux.rs`, begin…end blocks with a model side), and end to end through `DnsExchange` under
+//! a wake-driven executor (`c16/xchg.rs`, implementation-vs-oracle only).
+use std::net::{IpAddr, Ipv4Addr, Ipv6Addr, SocketAddr};
+
 use crate::common::*;
 
-pub fn run(_o: &Opts, rec: &mut Recorder) {
-    rec.rule = "stub".into();
+#[path = "c16/mux.rs"]
+mod mux;
+#[path = "c16/udp.rs"]
+mod udp;
+#[path = "c16/vtime.rs"]
+mod vtime;
+#[path = "c16/xchg.rs"]
+mod xchg;
+
+use udp::{Ev, UdpCase, Q};
+
+/// known-finding classes (known-findings.json); mirrored by `UdpMatch.endsUndecodable` / `endsCaseMismatch`
+/// and `queryEndClass` in the Lean model, whose verdict is part of the compared output line (`k=`)
+const CLASS_UNDECODABLE: &str = "C16.udp-query-ended-by-undecodable-or-nonresponse-datagram-from-queried-address";
+const CLASS_CASE: &str = "C16.udp-query-ended-by-case-mismatched-reply";
+
+/// state threaded through the lines of a multiplexer block
+#[derive(Default)]
+pub struct Ctx {
+    mux: Option<mux::MuxRun>,
+    begin_idx: usize,
+    ops: usize,
+}
+
+pub fn exec(ctx: &mut Ctx, line: &str, rec: &mut Recorder) {
+    let t: Vec<&str> = line.split_whitespace().collect();
+    match t.first().copied() {
+        Some("udp") => exec_udp(line, &t, rec),
+        Some("idfill") => {
+            let Some(n) = t.get(1).and_then(|x| x.parse::<usize>().ok()) else {
+                rec.stat("skipped.unparsable-case");
+                return;
+            };
+            let r = catch(|| mux::id_fill(n.min(65_536), rec));
+            rec.impl_only += 1;
+            match r {
+                Ok((out, fails)) => {
+                    let idx = rec.case(line.to_string(), out);
+                    rec.stat("op.idfill");
+                    if fails.is_empty() {
+                        rec.nontrivial(idx);
+                    }
+                    for f in fails {
+                        rec.fail(idx, f, "");
+                    }
+                }
+                Err(p) => {
+                    let idx = rec.case(line.to_string(), "~".into());
+                    rec.fail(idx, format!("panic: {p}"), "");
+                }
+            }
+        }
+        Some("consts") => {
+            let out = source_consts().unwrap_or_else(|| "?".into());
+            rec.case(line.to_string(), out);
+            rec.stat("op.consts");
+        }
+        Some("xchg") => {
+            let Some(c) = xchg::parse(&t) else {
+                rec.stat("skipped.unparsable-case");
+                return;
+            };
+            let r = catch(|| xchg::run(&c));
+            rec.impl_only += 1;
+            let idx = rec.case(line.to_string(), "~".into());
+            rec.stat("op.xchg");
+            match r {
+                Ok((stats, fails)) => {
+                    for s in stats {
+                        rec.stat(&s);
+                    }
+                    if fails.is_empty() && c.k >= 2 {
+                        rec.nontrivial(idx);
+                    }
+                    for f in fails {
+                        rec.fail(idx, f, "");
+                    }
+                }
+                Err(p) => rec.fail(idx, format!("panic: {p}"), ""),
+            }
+        }
+        Some("begin") => {
+            if let ["begin", "mux", tmo, m, st, ..] = t.as_slice() {
+                if let (Ok(tmo), Ok(m), Some(st)) = (tmo.parse::<u64>(), m.parse::<usize>(), match *st { "0" => Some(false), "1" => Some(true), _ => None }) {
+                    ctx.mux = Some(mux::MuxRun::new(tmo, m, st));
+                    ctx.begin_idx = rec.case(line.to_string(), "ok".into());
+                    ctx.ops = 0;
+                    rec.stat("op.mux.begin");
+                    rec.stat(&format!("mux.block.stalled.{}", b(st)));
+                    return;
+                }
+            }
+            rec.stat("skipped.unparsable-case");
+        }
+        Some("end") => {
+            let Some(mut m) = ctx.mux.take() else {
+                rec.stat("skipped.unparsable-case");
+                return;
+            };
+            let so = m.finish();
+            let out = if m.id_reused { rec.impl_only += 1; "~".to_string() } else { so.out };
+            let idx = rec.case(line.to_string(), out);
+            for f in so.fails {
+                rec.fail(idx, f, "");
+            }
+            rec.stat("op.mux.end");
+            rec.stat(&format!("mux.block.max-concurrent.{}", m.max_concurrent.min(9)));
+            if m.id_reused {
+                rec.stat("mux.block.id-reused(model side dropped)");
+            }
+            let got: usize = m.callers.iter().map(|c| c.got).sum();
+            // non-trivial block: at least two requests in flight together and a response reached a caller
+            if m.max_concurrent >= 2 && got >= 1 {
+                rec.nontrivial(ctx.begin_idx);
+            }
+        }
+        Some(_) if ctx.mux.is_some() => {
+            let m = ctx.mux.as_mut().unwrap();
+            match m.step(&t) {
+                None => rec.stat("skipped.unparsable-case"),
+                Some(so) => {
+                    let out = if m.id_reused { rec.impl_only += 1; "~".to_string() } else { so.out.clone() };
+                    let idx = rec.case(line.to_string(), out);
+                    ctx.ops += 1;
+                    rec.stat(&format!("op.mux.{}", t[0]));
+                    let kind = so.out.split(' ').next().unwrap_or("");
+                    rec.stat(&format!("mux.{}.{}", t[0], kind));
+                    if t[0] == "deliver" {
+                        rec.stat(&format!("mux.deliver.kind.{}", &t[1][..1]));
+                    }
+                    for f in so.fails {
+                        rec.fail(idx, f, "");
+                    }
+                }
+            }
+        }
+        _ => rec.stat("skipped.unparsable-case"),
+    }
+}
+
+/// The five numeric constants the models hard-code, read from the source the harness was built from:
+/// UDP loop bound, QOS_MAX_RECEIVE_MSGS, id tries, caller channel slots (buffer + 1), outbound slots.
+fn source_consts() -> Option<String> {
+    let root = std::env::var("HICKORY_REPO").unwrap_or_else(|_| "/repo".into());
+    let rd = |p: &str| std::fs::read_to_string(format!("{root}/{p}")).ok();
+    fn num_after(s: &str, anchor: &str, then: &str) -> Option<u64> {
+        let i = s.find(anchor)?;
+        let s = &s[i + anchor.len()..];
+        let j = s.find(then)?;
+        let s = &s[j + then.len()..];
+        let d: String = s.chars().take_while(|c| c.is_ascii_digit() || *c == '_').filter(|c| *c != '_').collect();
+        d.parse().ok()
+    }
+    let udp = rd("crates/net/src/udp/udp_client_stream.rs")?;
+    let mux = rd("crates/net/src/xfer/dns_multiplexer.rs")?;
+    let xfer = rd("crates/net/src/xfer/mod.rs")?;
+    let examined = num_after(&udp, "let mut recv_buf = vec![0; self.recv_buf_size];", "for _ in 0..")?;
+    let qos = num_after(&mux, "const QOS_MAX_RECEIVE_MSGS: usize", "= ")?;
+    let tries = num_after(&mux, "fn next_random_query_id", "for _ in 0..")?;
+    let chan = num_after(&mux, "const QUERY_RESPONSE_BUFFER_SIZE: usize", "= ")?;
+    let out = num_after(&xfer, "const DEFAULT_STREAM_BUFFER_SIZE: usize", "= ")?;
+    Some(format!("{examined} {qos} {tries} {} {}", chan + 1, out + 1))
+}
+
+// ------------------------------------------------------------------------------------------------
+// UDP
+
+/// Is the descriptor of every scripted datagram what the real parser sees in its bytes?
+fn script_consistent(c: &UdpCase) -> bool {
+    for (t, sc) in c.scripts.iter().enumerate() {
+        for (j, e) in sc.iter().enumerate() {
+            if let Ev::D { parses, resp, id, qs, raw, .. } = e {
+                if raw.is_none() && !*parses {
+                    return false;
+                }
+                let bytes = udp::dgram_bytes(t, j, e).unwrap().0;
+                if bytes.len() > 512 {
+                    return false;
+                }
+                let (p, r, i, q) = udp::abstract_bytes(&bytes);
+                if p != *parses || (p && (r != *resp || i != *id || &q != qs)) {
+                    if std::env::var("HKDEBUG").is_ok() {
+                        eprintln!("inconsistent {t}.{j}: {} real=({p},{r},{i},{})", udp::ev_tok(e), udp::qs_tok(&q));
+                    }
+                    return false;
+                }
+            }
+        }
+    }
+    true
+}
+
+fn exec_udp(line: &str, t: &[&str], rec: &mut Recorder) {
+    let Some(c) = udp::parse_case(t) else {
+        rec.stat("skipped.unparsable-case");
+        return;
+    };
+    if !script_consistent(&c) {
+        rec.stat("skipped.udp-descriptor-differs-from-bytes");
+        return;
+    }
+    let r = catch(|| udp::run_case(&c));
+    let run = match r {
+        Err(p) => {
+            let idx = rec.case(line.to_string(), format!("panic {p}"));
+            rec.fail(idx, format!("panic: {p}"), "");
+            return;
+        }
+        Ok(None) => {
+            rec.stat("skipped.unparsable-case");
+            return;
+        }
+        Ok(Some(run)) => run,
+    };
+    // the request that went out must be the scripted one, else the case says nothing
+    if let Some(sent) = &run.sent_first {
+        let (p, r, i, q) = udp::abstract_bytes(sent);
+        if !(p && !r && i == c.id && q == c.qs) {
+            rec.stat("skipped.udp-request-not-roundtrip");
+            return;
+        }
+    }
+    // Which scripted event ended the query, by the script and the clock alone: the last event a
+    // transmission consumed, arriving exactly when the query ended in an error.  If it is the 1st or 2nd
+    // datagram of its transmission and does not match the query, it was not skipped (a skip would have
+    // kept the transmission waiting); on the 3rd the transmission is over either way.
+    let interval = c.retry_interval.max(c.floor);
+    let mut ender: Option<(usize, usize)> = None;
+    if run.outcome == "err" {
+        for (t, (sc, n)) in c.scripts.iter().zip(&run.consumed).enumerate() {
+            if *n >= 1 && *n <= sc.len() {
+                let at: u64 = t as u64 * interval
+                    + sc[..*n].iter().map(|e| match e { Ev::E { delay } | Ev::D { delay, .. } => *delay }).sum::<u64>();
+                if at == run.end_time {
+                    ender = Some((t, *n - 1));
+                    break;
+                }
+            }
+        }
+    }
+    // (token for the output line, known-finding class, description)
+    let mut not_skipped: Option<(&'static str, &'static str, String)> = None;
+    if let Some((t, j)) = ender {
+        if j + 1 < 3 {
+            if let Some(why) = udp::mismatch(&c, &c.scripts[t][j]) {
+                match why {
+                    "not a datagram" => {} // recv_from error: not a datagram, a failed socket
+                    "unparsable" | "not a response" => {
+                        not_skipped = Some(("undecodable", CLASS_UNDECODABLE, format!("datagram {t}.{j} ({why}, from the queried address and port) ended the query with an error instead of being skipped")))
+                    }
+                    "letter case differs with case randomisation on" => {
+                        not_skipped = Some(("case", CLASS_CASE, format!("datagram {t}.{j} (reply with right source and id whose question differs in letter case only, case randomisation on) ended the query with an error instead of being skipped")))
+                    }
+                    _ => not_skipped = Some(("other", "", format!("datagram {t}.{j} ({why}) ended the query with an error instead of being skipped"))),
+                }
+            }
+        }
+    }
+    let out = format!(
+        "{} c={} k={}",
+        run.outcome,
+        run.consumed.iter().map(|x| x.to_string()).collect::<Vec<_>>().join(","),
+        not_skipped.as_ref().map(|x| x.0).unwrap_or("-")
+    );
+    let idx = rec.case(line.to_string(), out);
+    if let Some((tok, class, what)) = &not_skipped {
+        rec.stat(&format!("udp.not-skipped.{tok}"));
+        rec.fail(idx, what.clone(), class);
+    }
+    rec.stat("op.udp");
+    rec.stat(&format!("udp.outcome.{}", run.outcome.split(' ').next().unwrap()));
+    rec.stat(&format!("udp.transmissions.{}", run.consumed.len()));
+    rec.stat(&format!("udp.case_randomization.{}", b(c.case_rand)));
+    let total: usize = run.consumed.iter().sum();
+    rec.stat(&format!("udp.consumed-total.{}", total.min(9)));
+    // ---- oracle (script + implementation result only)
+    if run.outcome == "hang" {
+        rec.fail(idx, "query neither completed nor timed out", "");
+    }
+    if run.outcome == "ok ?" {
+        rec.fail(idx, "query completed with a response that is none of the consumed datagrams", "");
+    }
+    if let Some((t, j)) = run.accepted {
+        let e = &c.scripts[t][j];
+        if let Some(why) = udp::mismatch(&c, e) {
+            rec.fail(idx, format!("accepted datagram {t}.{j}: {why}"), "");
+        }
+    }
+    for (t, n) in run.consumed.iter().enumerate() {
+        if *n > 3 {
+            rec.fail(idx, format!("transmission {t} examined {n} > 3 datagrams"), "");
+        }
+    }
+    if !run.all_sent_to_server {
+        rec.fail(idx, "a transmission went to an address other than the queried server", "");
+    }
+    // non-trivial: something forged was examined, or a reply was accepted after at least one other datagram
+    let forged_examined = c.scripts.iter().zip(&run.consumed).any(|(sc, n)| sc.iter().take(*n).any(|e| udp::mismatch(&c, e).is_some()));
+    if forged_examined || run.accepted.map(|(t, j)| t + j > 0).unwrap_or(false) {
+        rec.nontrivial(idx);
+    }
+    for (sc, n) in c.scripts.iter().zip(&run.consumed) {
+        for e in sc.iter().take(*n) {
+            rec.stat(&format!("udp.examined.{}", udp::mismatch(&c, e).unwrap_or("matching").replace(' ', "-")));
+        }
+    }
+}
+
+// ---- generator
+
+fn gen_label(r: &mut Rng) -> Vec<u8> {
+    let n = r.range(1, 8) as usize;
+    (0..n)
+        .map(|_| match r.below(12) {
+            0 => b'0' + r.below(10) as u8,
+            1 => b'-',
+            2 => r.byte(), // arbitrary octet
+            3..=6 => b'A' + r.below(26) as u8,
+            _ => b'a' + r.below(26) as u8,
+        })
+        .collect()
+}
+
+fn gen_q(r: &mut Rng) -> Q {
+    let n = r.range(1, 4) as usize;
+    Q {
+        labels: (0..n).map(|_| gen_label(r)).collect(),
+        qtype: *r.pick(&[1u16, 1, 1, 28, 15, 16, 2, 6, 255, 65, 12345]),
+        qclass: *r.pick(&[1u16, 1, 1, 1, 3, 255, 4000]),
+    }
+}
+
+fn flip_case(r: &mut Rng, q: &Q) -> Q {
+    let mut q = q.clone();
+    let mut flipped = false;
+    for l in q.labels.iter_mut() {
+        for c in l.iter_mut() {
+            if c.is_ascii_alphabetic() && r.chance(1, 2) {
+                *c ^= 0x20;
+                flipped = true;
+            }
+        }
+    }
+    if !flipped {
+        // make sure at least one letter differs if there is a letter at all
+        'o: for l in q.labels.iter_mut() {
+            for c in l.iter_mut() {
+                if c.is_ascii_alphabetic() {
+                    *c ^= 0x20;
+                    break 'o;
+                }
+            }
+        }
+    }
+    q
+}
+
+fn gen_ip(r: &mut Rng) -> IpAddr {
+    match r.below(4) {
+        0 => IpAddr::V6(Ipv6Addr::from(((r.next() as u128) << 64) | r.next() as u128)),
+        1 => IpAddr::V6(Ipv4Addr::from(r.next() as u32).to_ipv6_mapped()),
+        _ => IpAddr::V4(Ipv4Addr::from(r.next() as u32)),
+    }
+}
+
+/// the other spelling of the same canonical address, if there is one
+fn alias_ip(ip: IpAddr) -> Option<IpAddr> {
+    match ip {
+        IpAddr::V4(x) => Some(IpAddr::V6(x.to_ipv6_mapped())),
+        IpAddr::V6(x) => x.to_ipv4_mapped().map(IpAddr::V4),
+    }
+}
+
+fn near_ip(r: &mut Rng, ip: IpAddr) -> IpAddr {
+    match ip {
+        IpAddr::V4(x) => IpAddr::V4(Ipv4Addr::from(u32::from(x) ^ (1 << r.below(32)))),
+        IpAddr::V6(x) => match r.below(3) {
+            // IPv4-compatible (not mapped) form of a mapped address, or a flipped bit
+            0 if x.to_ipv4_mapped().is_some() => IpAddr::V6(Ipv6Addr::from(u128::from(x) & 0xffff_ffff)),
+            _ => IpAddr::V6(Ipv6Addr::from(u128::from(x) ^ (1u128 << r.below(128)))),
+        },
+    }
+}
+
+const KINDS: &[&str] = &[
+    "genuine", "genuine", "genuine", "wrong-ip", "wrong-port", "alias-ip", "wrong-id", "wrong-name", "wrong-type",
+    "wrong-class", "extra-question", "no-question", "one-of-two", "case-flip", "garbage", "truncated", "query-type",
+    "io-err", "wrong-ip-garbage", "dup-question",
+];
+
+fn gen_event(r: &mut Rng, c: &UdpCase, kind: &str, delay: u64) -> Ev {
+    let mut src = c.server;
+    let mut id = c.id;
+    let mut qs = c.qs.clone();
+    let mut resp = true;
+    let mut raw: Option<Vec<u8>> = None;
+    match kind {
+        "wrong-ip" => src.set_ip(if r.chance(1, 2) { near_ip(r, c.server.ip()) } else { gen_ip(r) }),
+        "wrong-port" => src.set_port(if r.chance(1, 2) { c.server.port() ^ (1 << r.below(16)) } else { r.next() as u16 }),
+        "alias-ip" => {
+            if let Some(a) = alias_ip(c.server.ip()) {
+                src.set_ip(a)
+            }
+        }
+        "wrong-id" => id = if r.chance(1, 2) { c.id ^ (1 << r.below(16)) } else { r.next() as u16 },
+        "wrong-name" => {
+            if qs.is_empty() || r.chance(1, 3) {
+                qs = vec![gen_q(r)];
+            } else {
+                let k = r.below(qs.len() as u64) as usize;
+                match r.below(3) {
+                    0 => qs[k].labels.insert(0, gen_label(r)),
+                    1 => {
+                        let l = r.below(qs[k].labels.len() as u64) as usize;
+                        let p = r.below(qs[k].labels[l].len() as u64) as usize;
+                        qs[k].labels[l][p] = qs[k].labels[l][p].wrapping_add(1 + r.below(5) as u8);
+                    }
+                    _ => {
+                        if qs[k].labels.len() > 1 {
+                            qs[k].labels.remove(0);
+                        } else {
+                            qs[k].labels.push(gen_label(r));
+                        }
+                    }
+                }
+            }
+        }
+        "wrong-type" => {
+            if let Some(q) = qs.first_mut() {
+                q.qtype = q.qtype.wrapping_add(1 + r.below(3) as u16)
+            }
+        }
+        "wrong-class" => {
+            if let Some(q) = qs.first_mut() {
+                q.qclass = q.qclass.wrapping_add(1 + r.below(3) as u16)
+            }
+        }
+        "extra-question" => {
+            let e = gen_q(r);
+            let at = r.below(qs.len() as u64 + 1) as usize;
+            qs.insert(at, e);
+        }
+        "no-question" => qs.clear(),
+        "one-of-two" => {
+            if qs.len() > 1 {
+                let k = r.below(qs.len() as u64) as usize;
+                qs.remove(k);
+            }
+        }
+        "dup-question" => {
+            if let Some(q) = qs.first().cloned() {
+                qs.push(if r.chance(1, 2) { flip_case(r, &q) } else { q });
+            }
+        }
+        "case-flip" => {
+            if !qs.is_empty() {
+                let k = r.below(qs.len() as u64) as usize;
+                qs[k] = flip_case(r, &qs[k]);
+            }
+        }
+        "query-type" => resp = false,
+        "garbage" | "wrong-ip-garbage" => {
+            let n = r.below(40) as usize;
+            let mut g = r.bytes(n);
+            if g.len() >= 2 && r.chance(1, 2) {
+                g[0] = (c.id >> 8) as u8;
+                g[1] = c.id as u8;
+            }
+            raw = Some(g);
+            if kind == "wrong-ip-garbage" {
+                src.set_ip(near_ip(r, c.server.ip()));
+            }
+        }
+        "truncated" => {
+            let full = udp::encode_dgram(c.id, true, &c.qs, 0x7fff_0000 | r.below(65536) as u32);
+            let cut = r.below(full.len() as u64) as usize;
+            raw = Some(full[..cut].to_vec());
+        }
+        "io-err" => return Ev::E { delay },
+        _ => {}
+    }
+    if let Some(bytes) = &raw {
+        let (p, rr, i, q) = udp::abstract_bytes(bytes);
+        return Ev::D { delay, src, parses: p, resp: rr, id: i, qs: q, raw };
+    }
+    Ev::D { delay, src, parses: true, resp, id, qs, raw: None }
+}
+
+fn gen_udp(r: &mut Rng) -> UdpCase {
+    let nq = match r.below(20) {
+        0 => 0,
+        1 | 2 => 2,
+        _ => 1,
+    };
+    let interval = *r.pick(&[400u64, 1000, 2600]);
+    let (retry_interval, floor) = match r.below(3) {
+        0 => (interval, *r.pick(&[0u64, 100, interval])),
+        1 => (*r.pick(&[0u64, 10, interval]), interval),
+        _ => (interval, interval),
+    };
+    let mut c = UdpCase {
+        timeout: *r.pick(&[2010u64, 5010, 810]),
+        retry_interval,
+        floor,
+        max_retries: *r.pick(&[0u8, 1, 2, 3, 3, 3, 5]),
+        server: SocketAddr::new(gen_ip(r), if r.chance(2, 3) { 53 } else { r.range(1, 65535) as u16 }),
+        id: r.next() as u16,
+        case_rand: r.chance(1, 2),
+        qs: (0..nq).map(|_| gen_q(r)).collect(),
+        scripts: vec![],
+    };
+    let tasks = (c.max_retries as u64).max(1);
+    let n_scripts = r.below(tasks + 1).min(4) as usize + if r.chance(1, 2) { 1 } else { 0 };
+    // absolute instants already used by another socket or by a timer: never reuse one
+    let mut used: Vec<u64> = (0..=tasks).map(|i| i * interval).collect();
+    used.push(c.timeout);
+    for t in 0..n_scripts.min(tasks as usize) {
+        let n = match r.below(10) {
+            0 => 0,
+            1..=3 => r.range(1, 2),
+            4..=7 => r.range(2, 4),
+            _ => r.range(3, 6),
+        } as usize;
+        let start = t as u64 * interval;
+        let mut at = start;
+        let mut sc = vec![];
+        let mut mine: Vec<u64> = vec![];
+        let hostile = r.chance(1, 3);
+        // "k skipped-kind forgeries, then the genuine reply": k = 3 is the loop bound
+        let prefix: Option<usize> = if r.chance(1, 3) { Some(r.below(5) as usize) } else { None };
+        let n = match prefix {
+            Some(k) => k + 1 + r.below(2) as usize,
+            None => n,
+        };
+        for j in 0..n {
+            let mut d = match r.below(6) {
+                0..=2 => 0,
+                3 => r.range(1, 50),
+                4 => r.range(1, interval),
+                _ => r.range(1, 2 * interval),
+            };
+            while d > 0 && used.contains(&(at + d)) {
+                d += 1;
+            }
+            at += d;
+            mine.push(at);
+            let kind = match prefix {
+                Some(k) if j < k => *r.pick(&["wrong-ip", "wrong-port", "wrong-id", "wrong-name", "wrong-type", "extra-question", "wrong-ip-garbage"]),
+                Some(k) if j == k => "genuine",
+                _ => if hostile && r.chance(2, 3) { *r.pick(&KINDS[3..]) } else { *r.pick(KINDS) },
+            };
+            sc.push(gen_event(r, &c, kind, d));
+        }
+        used.extend(mine);
+        c.scripts.push(sc);
+    }
+    c
+}
+
+// ---- multiplexer generator (online: the next op is chosen looking at what exists so far)
+
+fn mux_block(r: &mut Rng, ctx: &mut Ctx, rec: &mut Recorder, serial: usize) {
+    let scenario = r.below(10);
+    let timeout = *r.pick(&[1000u64, 1000, 300, 5000]);
+    let (max_active, stalled) = match scenario {
+        0 => (r.range(1, 3) as usize, false), // Busy
+        1 => (r.range(34, 40) as usize, true), // stalled writer: the outbound buffer fills
+        _ => (32, false),
+    };
+    exec(ctx, &format!("begin mux {timeout} {max_active} {} #{serial}", b(stalled)), rec);
+    let mut next_k = 0usize;
+    let mut send = |ctx: &mut Ctx, rec: &mut Recorder, next_k: &mut usize| {
+        exec(ctx, &format!("send {}", *next_k), rec);
+        *next_k += 1;
+    };
+    match scenario {
+        1 => {
+            // stalled: sends, cancels and polls only
+            let n = r.range(30, 45);
+            for _ in 0..n {
+                match r.below(6) {
+                    0..=2 => send(ctx, rec, &mut next_k),
+                    3 if next_k > 0 => exec(ctx, &format!("cancel {}", r.below(next_k as u64)), rec),
+                    4 => exec(ctx, "poll", rec),
+                    _ => {
+                        if next_k > 0 {
+                            exec(ctx, &format!("cancel {}", next_k - 1), rec);
+                        }
+                        exec(ctx, "poll", rec);
+                        send(ctx, rec, &mut next_k);
+                    }
+                }
+            }
+            if next_k > 0 {
+                exec(ctx, &format!("deliver r{} 1", r.below(next_k as u64)), rec);
+            }
+        }
+        2 | 3 => {
+            // k concurrent requests, responses in a random order, some twice, some never, strangers in between
+            let k = r.range(2, 8) as usize;
+            for _ in 0..k {
+                send(ctx, rec, &mut next_k);
+                if r.chance(1, 4) {
+                    exec(ctx, "poll", rec);
+                }
+            }
+            let mut order: Vec<usize> = (0..k).collect();
+            for i in (1..k).rev() {
+                order.swap(i, r.below(i as u64 + 1) as usize);
+            }
+            for &j in &order {
+                match r.below(8) {
+                    0 => {} // never answered
+                    1 => exec(ctx, &format!("deliver r{j} 2"), rec),
+                    2 => {
+                        exec(ctx, "deliver u 1", rec);
+                        exec(ctx, &format!("deliver r{j} 1"), rec);
+                    }
+                    3 => {
+                        exec(ctx, &format!("deliver q{j} 1"), rec);
+                        exec(ctx, &format!("deliver r{j} 1"), rec);
+                    }
+                    _ => exec(ctx, &format!("deliver r{j} 1"), rec),
+                }
+                if r.chance(1, 3) {
+                    exec(ctx, "poll", rec);
+                }
+                if r.chance(1, 5) {
+                    exec(ctx, &format!("recv {}", r.below(k as u64)), rec);
+                }
+            }
+            exec(ctx, "poll", rec);
+            if r.chance(1, 3) {
+                exec(ctx, &format!("advance {}", timeout + 1), rec);
+                exec(ctx, "poll", rec);
+            }
+            if r.chance(1, 4) {
+                exec(ctx, if r.chance(1, 2) { "deliver c 1" } else { "deliver e 1" }, rec);
+                exec(ctx, "poll", rec);
+            }
+        }
+        4 => {
+            // flood: the QoS bound
+            let k = r.range(1, 3) as usize;
+            for _ in 0..k {
+                send(ctx, rec, &mut next_k);
+            }
+            let total = *r.pick(&[99u64, 100, 101, 150, 199, 200, 201, 250]);
+            let mut left = total;
+            while left > 0 {
+                let n = r.range(1, left.min(120));
+                let kind = match r.below(4) {
+                    0 => "u".to_string(),
+                    1 => "g".to_string(),
+                    _ => format!("r{}", r.below(k as u64)),
+                };
+                exec(ctx, &format!("deliver {kind} {n}"), rec);
+                left -= n;
+            }
+            for _ in 0..r.range(1, 4) {
+                exec(ctx, "poll", rec);
+                if r.chance(1, 2) {
+                    exec(ctx, &format!("recv {}", r.below(k as u64)), rec);
+                }
+            }
+        }
+        _ => {
+            let n = r.range(8, 40);
+            let mut over = false; // the script has shut the multiplexer down or closed the stream
+            for _ in 0..n {
+                let have = next_k > 0;
+                let any = |r: &mut Rng| r.below(next_k.max(1) as u64);
+                match r.below(100) {
+                    0..=24 if !over || r.chance(1, 8) => send(ctx, rec, &mut next_k),
+                    25..=49 if have => {
+                        let cnt = match r.below(12) {
+                            0 => r.range(2, 4),
+                            1 => r.range(8, 12), // overflow the caller's buffer
+                            _ => 1,
+                        };
+                        exec(ctx, &format!("deliver r{} {cnt}", any(r)), rec)
+                    }
+                    50..=53 => exec(ctx, &format!("deliver u {}", r.range(1, 2)), rec),
+                    54..=55 => exec(ctx, "deliver g 1", rec),
+                    56..=58 if have => exec(ctx, &format!("deliver q{} 1", any(r)), rec),
+                    59..=76 => exec(ctx, "poll", rec),
+                    77..=88 if have => exec(ctx, &format!("recv {}", any(r)), rec),
+                    89..=92 if have => exec(ctx, &format!("cancel {}", any(r)), rec),
+                    93..=96 => {
+                        let dt = *r.pick(&[timeout / 3, timeout / 2 + 1, timeout, 1]);
+                        exec(ctx, &format!("advance {dt}"), rec)
+                    }
+                    97 => {
+                        over = true;
+                        exec(ctx, if r.chance(1, 2) { "deliver c 1" } else { "deliver e 1" }, rec)
+                    }
+                    98 => {
+                        over = true;
+                        exec(ctx, "shutdown", rec)
+                    }
+                    _ => exec(ctx, "poll", rec),
+                }
+            }
+        }
+    }
+    exec(ctx, "end", rec);
+}
+
+/// every delivery sequence of length <= `len` over {r0, …, r(k-1), u} for k concurrent requests,
+/// polled after each delivery (`each`) or once at the end
+fn mux_enumerate(ctx: &mut Ctx, rec: &mut Recorder, k: usize, len: usize, serial: &mut usize) {
+    let alphabet = k + 1;
+    for l in 0..=len {
+        let total = alphabet.pow(l as u32);
+        for code in 0..total {
+            for each in [false, true] {
+                *serial += 1;
+                exec(ctx, &format!("begin mux 1000 32 0 #e{serial}"), rec);
+                for j in 0..k {
+                    exec(ctx, &format!("send {j}"), rec);
+                }
+                let mut c = code;
+                for _ in 0..l {
+                    let x = c % alphabet;
+                    c /= alphabet;
+                    let line = if x == k { "deliver u 1".to_string() } else { format!("deliver r{x} 1") };
+                    exec(ctx, &line, rec);
+                    if each {
+                        exec(ctx, "poll", rec);
+                    }
+                }
+                exec(ctx, "poll", rec);
+                exec(ctx, "end", rec);
+            }
+        }
+    }
+}
+
+fn gen_xchg(r: &mut Rng) -> String {
+    let k = r.range(1, 8) as usize;
+    let flood = *r.pick(&[0usize, 0, 0, 1, 50, 99, 100, 101, 150, 200, 250]);
+    let mut order: Vec<usize> = (0..k).collect();
+    for i in (1..k).rev() {
+        order.swap(i, r.below(i as u64 + 1) as usize);
+    }
+    let mut script: Vec<String> = vec![];
+    for j in order {
+        match r.below(8) {
+            0 => {}
+            1 => {
+                script.push(format!("r{j}"));
+                script.push(format!("r{j}"));
+            }
+            2 => {
+                script.push("u".into());
+                script.push(format!("r{j}"));
+            }
+            _ => script.push(format!("r{j}")),
+        }
+        if r.chance(1, 25) {
+            script.push(if r.chance(1, 2) { "c".into() } else { "e".into() });
+        }
+    }
+    format!("xchg {k} {flood} {} {}", b(r.chance(1, 2)), if script.is_empty() { "-".to_string() } else { script.join(",") })
+}
+
+/// every arrival sequence of length <= `len` over 11 fixed event kinds on one transmission, for one
+/// request, with and without case randomisation (small-scope validation of the loop model)
+fn udp_enumerate(ctx: &mut Ctx, rec: &mut Recorder, len: usize) {
+    let server: SocketAddr = "192.168.1.1:53".parse().unwrap();
+    let q = Q { labels: vec![b"ExAmPlE".to_vec(), b"cOm".to_vec()], qtype: 1, qclass: 1 };
+    let ql = Q { labels: vec![b"example".to_vec(), b"com".to_vec()], qtype: 1, qclass: 1 };
+    let other = Q { labels: vec![b"evil".to_vec(), b"com".to_vec()], qtype: 1, qclass: 1 };
+    let d = |src: SocketAddr, id: u16, resp: bool, qs: Vec<Q>| Ev::D { delay: 0, src, parses: true, resp, id, qs, raw: None };
+    let mapped = SocketAddr::new(IpAddr::V6(Ipv4Addr::new(192, 168, 1, 1).to_ipv6_mapped()), 53);
+    let kinds: Vec<Ev> = vec![
+        d(server, 4660, true, vec![q.clone()]),
+        d("192.168.1.2:53".parse().unwrap(), 4660, true, vec![q.clone()]),
+        d("192.168.1.1:54".parse().unwrap(), 4660, true, vec![q.clone()]),
+        d(mapped, 4660, true, vec![q.clone()]),
+        d(server, 4661, true, vec![q.clone()]),
+        d(server, 4660, true, vec![other.clone()]),
+        d(server, 4660, true, vec![q.clone(), other.clone()]),
+        d(server, 4660, true, vec![ql.clone()]),
+        Ev::D { delay: 0, src: server, parses: false, resp: false, id: 0, qs: vec![], raw: Some(vec![0]) },
+        d(server, 4660, false, vec![q.clone()]),
+        Ev::E { delay: 0 },
+    ];
+    for case_rand in [false, true] {
+        for l in 0..=len {
+            for code in 0..kinds.len().pow(l as u32) {
+                let mut c = code;
+                let mut sc = vec![];
+                for _ in 0..l {
+                    sc.push(kinds[c % kinds.len()].clone());
+                    c /= kinds.len();
+                }
+                let case = UdpCase {
+                    timeout: 5010,
+                    retry_interval: 1000,
+                    floor: 1000,
+                    max_retries: 1,
+                    server,
+                    id: 4660,
+                    case_rand,
+                    qs: vec![q.clone()],
+                    scripts: vec![sc],
+                };
+                exec(ctx, &udp::case_line(&case), rec);
+            }
+        }
+    }
+}
+
+pub fn run(o: &Opts, rec: &mut Recorder) {
+    rec.rule = "UDP lines: scripted arrival lists (genuine reply + forged datagrams of 17 kinds: wrong ip/port/id/name/type/class, extra/duplicate/missing question, case flip, garbage, truncation, QR=0, recv error, v4-mapped alias) per transmission, with delays, with and without case randomisation; a case is non-trivial when a non-matching datagram was examined or a reply was accepted after at least one other datagram; distinct by case line. Multiplexer blocks (begin…end): k concurrent requests on a scripted stream, responses in any order / duplicated / never / unknown id / undecodable / QR=0, cancels, timeouts in virtual time, close, shutdown, floods of 99-250 frames, stalled writer; `xchg` lines (no model side): k requests through the real DnsExchange + background task + multiplexer run by a wake-driven executor, responses permuted/duplicated/missing after floods of 0-250 foreign frames; a block is non-trivial when at least two requests were in flight together and a response reached a caller; distinct by block serial".into();
+    let mut ctx = Ctx::default();
+    for l in o.pre_lines.clone() {
+        exec(&mut ctx, &l, rec);
+    }
+    ctx.mux = None;
+    rec.corpus_cases = rec.cases.len();
+    if o.replay_only {
+        return;
+    }
+    // the constants of the models against the source this harness was built from
+    exec(&mut ctx, "consts", rec);
+    let mut r = Rng::new(o.seed);
+    udp_enumerate(&mut ctx, rec, if o.thorough() { 4 } else { 2 });
+    let n = o.n(4000, 600_000);
+    for _ in 0..n {
+        let c = gen_udp(&mut r);
+        exec(&mut ctx, &udp::case_line(&c), rec);
+    }
+    let mut serial = 0usize;
+    if o.thorough() {
+        mux_enumerate(&mut ctx, rec, 2, 6, &mut serial);
+        mux_enumerate(&mut ctx, rec, 3, 5, &mut serial);
+    } else {
+        mux_enumerate(&mut ctx, rec, 3, 3, &mut serial);
+    }
+    for _ in 0..o.n(400, 40_000) {
+        let l = gen_xchg(&mut r);
+        exec(&mut ctx, &l, rec);
+    }
+    let nb = o.n(600, 100_000);
+    for i in 0..nb {
+        mux_block(&mut r, &mut ctx, rec, i);
+    }
 }
